@@ -911,7 +911,15 @@ def eval_part(chk, only_case=None):
     # ---- (a) proof gate
     have_full = os.path.exists(os.path.join(vlib.COQ, "Props", "Properties_C17.v"))
     if have_full:
-        chk.proof_gate()
+        # Properties_C17.v also holds the lexer / shell-quoting theorems over the probed tables: regenerate the tables first
+        search = None
+        try:
+            import props.c17lex as c17lex
+            c17lex.prepare(chk)
+            search = c17lex.proof_search(chk)
+        except ImportError:
+            pass
+        chk.proof_gate(search=search)
     else:
         res = vlib.check_props("C17eval")
         chk.proof = res
